@@ -4183,3 +4183,59 @@ def abs_inside(r: R, chk, quals: List[str], rule="ABS-INSIDE", floor: int = 1):
                            func=q, construct="error entries summed with their signs")
     chk.floor(rule, "reductions of the error matrix to one number", n, floor)
     return n
+
+
+# ---------------------------------------------------------------------------------------------------------
+# DEFAULT-SAME-OPERAND: the default given to a missing attribute of one operand is sized by that operand
+def default_same_operand(r: R, chk, qual: str, rule="DEFAULT-SAME-OPERAND", floor: int = 2):
+    """`w1 = B.weights` ... `if w1 is None: w1 = (1,) * n`: the stand-in weights of a polynomial operand have one entry per control
+    point of THAT operand.  The value assigned under `if X is None:` depends on the same operand as X does, never on the other one
+    only (n taken from A gives a weight vector of the wrong length whenever the two curves have different numbers of points)."""
+    ctx = r.root(qual)
+    fi = ctx.fi
+
+    # syntactic provenance: the objects (`selfcopy`, `othercopy`, `self`, `other`) whose attributes a name is read from
+    defs = {}
+    for a in ast.walk(fi.node):
+        if isinstance(a, ast.Assign) and len(a.targets) == 1:
+            t, v = a.targets[0], a.value
+            if isinstance(t, ast.Name):
+                defs.setdefault(t.id, []).append(v)
+            elif isinstance(t, ast.Tuple) and isinstance(v, ast.Tuple) and len(t.elts) == len(v.elts):
+                for x, y in zip(t.elts, v.elts):
+                    if isinstance(x, ast.Name):
+                        defs.setdefault(x.id, []).append(y)
+
+    def roots(e, depth=3, skip=None):
+        out = set()
+        for x in ast.walk(e):
+            if isinstance(x, ast.Attribute) and isinstance(x.value, ast.Name):
+                out.add(x.value.id)
+        if depth > 0:
+            for x in ast.walk(e):
+                if isinstance(x, ast.Name) and x.id in defs and x.id != skip and not any(isinstance(p_, ast.Attribute) and p_.value is x for p_ in ast.walk(e)):
+                    for d_ in defs[x.id]:
+                        if not (isinstance(d_, ast.BinOp) and isinstance(d_.left, ast.Tuple)):
+                            out |= roots(d_, depth - 1, skip=x.id)
+        return out
+
+    n = 0
+    for st in ast.walk(fi.node):
+        if not (isinstance(st, ast.If) and isinstance(st.test, ast.Compare) and len(st.test.ops) == 1 and isinstance(st.test.ops[0], ast.Is) and isinstance(st.test.left, ast.Name) and isinstance(st.test.comparators[0], ast.Constant) and st.test.comparators[0].value is None):
+            continue
+        x = st.test.left.id
+        inner = [a for a in st.body if isinstance(a, ast.Assign) and len(a.targets) == 1 and isinstance(a.targets[0], ast.Name) and a.targets[0].id == x]
+        if not inner or st.orelse:
+            continue
+        others = [d_ for d_ in defs.get(x, []) if d_ is not inner[0].value]
+        rx = set().union(*[roots(d_, 0) for d_ in others]) if others else set()
+        rv = roots(inner[0].value)
+        if len(rx) != 1 or not rv:
+            continue
+        n += 1
+        ok = rx <= rv
+        chk.ob(rule, f"{qual}: the default of `{x}` is sized by the operand `{x}` comes from", ok, loc=r.loc(ctx, inner[0]),
+               detail="" if ok else f"{qual}: `{seg(inner[0], 40)}` under `if {x} is None:` is computed from `{', '.join(sorted(rv))}` while `{x}` belongs to `{next(iter(rx))}`: the stand-in has one entry per control point of the wrong curve — joining a rational curve with a polynomial one that has another number of control points raises (or gives a weight vector of the wrong length)",
+               func=qual, construct=f"default of {x} taken from the other operand")
+    chk.floor(rule, f"defaults under `is None` tests in {qual}", n, floor)
+    return n
